@@ -65,7 +65,20 @@ pub struct Scenario {
 pub fn scenarios(r: &mut Rng) -> Scenario {
     let n = r.range(2, 3);
     let gap = |r: &mut Rng| -> Step { if r.chance(1, 2) { Step::Quiet } else { Step::Run(r.range(0, 60) as u64) } };
-    match r.below(11) {
+    match r.below(13) {
+        11 => {
+            // two primaries lost one after the other (round 10): the second one to die is a node the survivors first knew as
+            // a secondary and that announced its victory over links opened between secondaries
+            let mut steps: Vec<Step> = (0..3).flat_map(|i| vec![Step::Start(i), Step::Quiet]).collect();
+            steps.extend([Step::Kill(0), Step::Quiet, Step::Kill(1), Step::Quiet]);
+            Scenario { class: "two-primaries-killed-one-after-the-other", nodes: 3, steps }
+        }
+        12 => {
+            // the same with the first primary back (as the youngest node) before its successor dies
+            let mut steps: Vec<Step> = (0..3).flat_map(|i| vec![Step::Start(i), Step::Quiet]).collect();
+            steps.extend([Step::Kill(0), Step::Quiet, Step::Restart(0), Step::Quiet, Step::Kill(1), Step::Quiet]);
+            Scenario { class: "primary-killed-and-restarted-then-its-successor-killed", nodes: 3, steps }
+        }
         0 => Scenario { class: "sequential-joins", nodes: n, steps: (0..n).flat_map(|i| vec![Step::Start(i), Step::Quiet]).collect() },
         1 => {
             let mut steps = vec![];
@@ -321,7 +334,7 @@ pub fn run(tier: &str) -> i32 {
     let s = st.into_inner().unwrap();
     ev.evaluations = s.runs;
     ev.distinct_nontrivial = s.distinct.len() as u64;
-    ev.rule = format!("{} simulated-cluster runs over 9 scenario classes (sequential joins, staggered and simultaneous start, primary killed, secondary killed+restarted, primary killed+restarted, forced election, two forced elections, primary killed + forced election) with 2-3 nodes of distinct ages; real supervisor / replication loop / election code, emulated FIFO links, seeded token scheduler in which an election-wait tick or a start-up timer is taken only when nothing else is enabled (plus at most 4 early ticks per wait, timeout = 15 ticks); judged at every quiescent point; step budget {} (largest quiescent run: {} steps); distinct_nontrivial = distinct (scenario class, victory branches taken, scheduler decision hash) among the runs in which a contested election (>= 2 participants: victory by acknowledgements, timeout or not-registered branch) was decided", n_runs, 6000, s.max_steps);
+    ev.rule = format!("{} simulated-cluster runs over 12 scenario classes (sequential joins, staggered and simultaneous start, primary killed, two primaries killed one after the other - with and without the first one back in between -, secondary killed+restarted, primary killed+restarted, forced election, two forced elections, primary killed + forced election) with 2-3 nodes of distinct ages; real supervisor / replication loop / election code, emulated FIFO links, seeded token scheduler in which an election-wait tick or a start-up timer is taken only when nothing else is enabled (plus at most 4 early ticks per wait, timeout = 15 ticks); judged at every quiescent point; step budget {} (largest quiescent run: {} steps); distinct_nontrivial = distinct (scenario class, victory branches taken, scheduler decision hash) among the runs in which a contested election (>= 2 participants: victory by acknowledgements, timeout or not-registered branch) was decided", n_runs, 6000, s.max_steps);
     ev.samples = s.samples.clone();
     ev.set("quiescent_points_judged", json!(s.quiet_points));
     ev.set("scenario_classes", json!(s.classes.iter().cloned().collect::<Vec<_>>()));
